@@ -511,7 +511,12 @@ pub fn run(ctx: &Ctx) -> Report {
     for (i, c) in base.iter().enumerate() {
         let w = c.win.unwrap_or((0, 0, W, H));
         let ps = preds(w);
-        if ctx.tier_thorough {
+        if c.win.is_none() {
+            // the few full-frame writes: after every predecessor, in both tiers
+            for p in ps {
+                cases.push(Case { pred: Some(p), ..c.clone() });
+            }
+        } else if ctx.tier_thorough {
             // every predecessor for a third of the cases, a rotating one for the rest
             if i % 3 == 0 {
                 for p in ps {
